@@ -30,6 +30,9 @@ CONSTANTS MaxPg,      \* model pages 1..MaxPg
           FixFirstRb, \* TRUE = CommitJournal treats an empty database file as "nothing to capture" (as repaired)
           AllowCrash, \* the LiteFS process may die (volatile state lost) and restart on the same data directory
           FixJournalNoPS, \* TRUE = restart with a journal but unknown page size just discards the journal (as repaired)
+          AllowFreeReuse, \* transactions may overwrite free pages without journalling them (SQLite: free-list leaves)
+          AllowFromWal,   \* journal-mode switch from WAL back to a rollback journal reachable
+          FixModeSwitch,  \* TRUE = creating a journal puts the database in rollback mode (as repaired, fa80c49)
           FixModeOnOpen,  \* TRUE = restart re-derives the journal mode from the recovered header (as repaired)
           AllowDropDB,\* the database may be deleted (RootNode.Remove -> DB.Drop) and created again
           AllowRetain,\* retention sweeps (Store.EnforceRetention with a zero-length retention) between operations
@@ -138,6 +141,9 @@ ApplyL(img, e) == [p \in 1..e.commit |-> IF p \in DOMAIN e.pages THEN e.pages[p]
 SameImage(a, b) == Len(a) = Len(b) /\ \A p \in 1..Len(a) : p # LockPg => a[p] = b[p]
 
 NewContent(p) == [v |-> plan.v, sz |-> IF p = 1 THEN plan.ns ELSE 0, wal |-> IF p = 1 THEN plan.wal ELSE FALSE]
+FreeContent(p) == [v |-> plan.v + 300, sz |-> 0, wal |-> FALSE]
+\* what SQLite sees after a rollback: the previous image, except the reused free pages
+RolledBackImage == [p \in 1..Len(refImg) |-> IF p \in plan.F THEN FreeContent(p) ELSE refImg[p]]
 NewImage == [p \in 1..plan.ns |-> IF p \in plan.M THEN NewContent(p) ELSE IF p <= Len(refImg) THEN refImg[p] ELSE ZERO]
 
 (* ====================== history ====================== *)
@@ -147,12 +153,16 @@ H(a, args) == hist' = Append(hist, [a |-> a, g |-> args, o |-> Obs])
 (* ====================== environment: start an operation ====================== *)
 Live == fault = "none"
 
+\* SQLite leaves WAL mode (PRAGMA journal_mode=DELETE|TRUNCATE|PERSIST) with the log fully checkpointed
+\* and cut (sqlite3WalClose under the exclusive lock); it deletes the log and then rewrites the header
+\* in an ordinary rollback-journal transaction - while the header LiteFS last saw still says WAL
+WalGone == ~wal.ex \/ (wal.frames = <<>> /\ mx = 0)
 BeginJ ==
-  /\ pc = "idle" /\ ops < MaxOps /\ Live /\ ~EnvWal
-  /\ pc' = "j_create" /\ todo' = <<>> /\ ops' = ops + 1
+  /\ pc = "idle" /\ ops < MaxOps /\ Live /\ (~EnvWal \/ (AllowFromWal /\ WalGone))
+  /\ pc' = (IF EnvWal THEN "j_rmwal" ELSE "j_create") /\ todo' = <<>> /\ ops' = ops + 1
   /\ UNCHANGED <<dvars, lvars, refImg, salts, mx, ckpted, mvars>>
   /\ \E ns \in 1..MaxPg, M \in SUBSET Pages, out \in {"commit", "rb_early", "rb_spill"},
-        fin \in FinModes, nosync \in BOOLEAN, toWal \in BOOLEAN, E \in SUBSET Pages :
+        fin \in FinModes, nosync \in BOOLEAN, toWal \in BOOLEAN, E \in SUBSET Pages, F \in SUBSET Pages :
        /\ 1 \in M /\ M \subseteq 1..ns /\ (((CurSize + 1)..ns) \ {LockPg}) \subseteq M /\ LockPg \notin M
        \* E: pages beyond the committed size that were spilled to the file during the transaction and
        \* then freed again (incremental vacuum): written, but not part of the committed database
@@ -160,20 +170,38 @@ BeginJ ==
        /\ (E # {} => AllowBeyond /\ out = "commit" /\ \A q \in (Max({CurSize, ns}) + 1)..Max(E) : q \in E \/ q = LockPg)
        /\ (nosync => AllowNoSync)
        /\ (out = "rb_spill" => AllowSpill)
-       /\ (toWal => AllowWAL /\ out = "commit")
+       \* F: free-list leaf pages the transaction reuses. SQLite neither reads nor journals them (their
+       \* content is "don't care"), so a rollback does not restore them: after it the file differs from
+       \* the pre-transaction file in exactly these pages (observed with real SQLite, T3 tier). In a
+       \* committing transaction they are ordinary members of M, so F matters for rollbacks only.
+       /\ F \subseteq (2..CurSize) \ (M \cup {LockPg}) /\ (F # {} => AllowFreeReuse /\ out = "rb_spill")
+       /\ (toWal => AllowWAL /\ out = "commit" /\ ~EnvWal)      \* in WAL mode a journal transaction is the one that leaves it
+       \* SQLite removes the journal file when it enters WAL mode, whatever the previous mode was (observed
+       \* with real SQLite in the T3 tier): no journal file exists while the database is in WAL mode
+       /\ (toWal => fin = "DELETE")
        /\ plan' = [kind |-> "j", ns |-> ns, M |-> M, out |-> out, fin |-> fin, nosync |-> nosync,
-                   wal |-> toWal, v |-> ops + 1, E |-> E]
-       /\ H("BeginJ", [ns |-> ns, M |-> M, out |-> out, fin |-> fin, nosync |-> nosync, wal |-> toWal, v |-> ops + 1, E |-> E])
+                   wal |-> toWal, v |-> ops + 1, E |-> E, F |-> F]
+       /\ H("BeginJ", [ns |-> ns, M |-> M, out |-> out, fin |-> fin, nosync |-> nosync, wal |-> toWal, v |-> ops + 1, E |-> E, F |-> F])
 
 (* ---------------- rollback-journal protocol ---------------- *)
+\* leaving WAL mode: the (empty) log is unlinked; RemoveWAL clears LiteFS's frame bookkeeping
+JRmWal ==
+  /\ pc = "j_rmwal"
+  /\ wal' = [ex |-> FALSE, hdr |-> 0, frames |-> <<>>] /\ foff' = <<>> /\ wchk' = <<>> /\ mx' = 0 /\ ckpted' = FALSE
+  /\ pc' = "j_create"
+  /\ UNCHANGED <<dbf, jr, ltxN, ltxLast, psKnown, pageN, pos, mode, dirty, pchk, blk, woff, wsalt, fault,
+                 plan, todo, refImg, ops, salts, mvars>>
+  /\ H("JRmWal", [x |-> 0])
+
 \* journal created (or re-opened in TRUNCATE/PERSIST mode), header + records of the pre-existing pages in M
 JCreate ==
   /\ pc = "j_create"
   /\ jr' = [ex |-> TRUE, hdr |-> IF plan.nosync THEN "valid" ELSE "unsynced", orig |-> CurSize,
             recs |-> [p \in {q \in plan.M \cup plan.E : q <= CurSize} |-> refImg[p]]]
   /\ psKnown' = TRUE                 \* WriteJournalAt takes the page size from the header
+  /\ mode' = (IF FixModeSwitch THEN "rb" ELSE mode)     \* CreateJournal: only a rollback-mode connection creates a journal
   /\ pc' = IF plan.out = "rb_early" THEN "j_final" ELSE "j_sync"
-  /\ UNCHANGED <<dbf, wal, ltxN, ltxLast, pageN, pos, mode, dirty, pchk, blk, woff, wsalt, foff, wchk, fault,
+  /\ UNCHANGED <<dbf, wal, ltxN, ltxLast, pageN, pos, dirty, pchk, blk, woff, wsalt, foff, wchk, fault,
                  plan, todo, refImg, ops, salts, mx, ckpted, mvars>>
   /\ H("JCreate", [x |-> 0])
 
@@ -182,7 +210,7 @@ JSync ==     \* fsync + magic/nRec written into the header, before the first dat
   /\ jr' = [jr EXCEPT !.hdr = "valid"]
   /\ pc' = "j_pages"
   /\ todo' = IF plan.out = "commit" THEN SeqOfSet(plan.M \cup plan.E)
-             ELSE <<Head(SeqOfSet(plan.M))>>          \* spill: only the first page reaches the file
+             ELSE <<Head(SeqOfSet(plan.M))>> \o SeqOfSet(plan.F)   \* spill: the first page and the reused free pages reach the file
   /\ UNCHANGED <<dbf, wal, ltxN, ltxLast, lvars, plan, refImg, ops, salts, mx, ckpted, mvars>>
   /\ H("JSync", [x |-> 0])
 
@@ -196,12 +224,13 @@ DBWriteEff(p, c) ==
 
 JPage ==
   /\ pc = "j_pages" /\ todo # <<>>
-  /\ DBWriteEff(Head(todo), IF Head(todo) \in plan.E THEN [NewContent(Head(todo)) EXCEPT !.v = plan.v + 200] ELSE NewContent(Head(todo)))
+  /\ DBWriteEff(Head(todo), IF Head(todo) \in plan.E THEN [NewContent(Head(todo)) EXCEPT !.v = plan.v + 200]
+                             ELSE IF Head(todo) \in plan.F THEN FreeContent(Head(todo)) ELSE NewContent(Head(todo)))
   /\ todo' = Tail(todo)
   /\ pc' = IF Tail(todo) # <<>> THEN "j_pages" ELSE IF plan.out = "commit" THEN "j_final" ELSE "j_rb_trunc"
   /\ UNCHANGED <<jr, wal, ltxN, ltxLast, psKnown, pageN, pos, mode, woff, wsalt, foff, wchk, fault,
                  plan, refImg, ops, salts, mx, ckpted, mvars>>
-  /\ H("JPage", [p |-> Head(todo), x |-> Head(todo) \in plan.E])
+  /\ H("JPage", [p |-> Head(todo), x |-> Head(todo) \in plan.E, fr |-> Head(todo) \in plan.F])
 
 \* TruncateDatabase (db.go): only to LiteFS's own page count
 TruncEff(n) ==
@@ -238,7 +267,7 @@ JournalGone == IF plan.fin = "DELETE" THEN NoJr
 \* CommitJournal (db.go), reached by unlink / truncate / zeroed header
 JFinal ==
   /\ pc = "j_final"
-  /\ LET newRef == IF plan.out = "commit" THEN NewImage ELSE refImg IN
+  /\ LET newRef == IF plan.out = "commit" THEN NewImage ELSE IF plan.out = "rb_spill" THEN RolledBackImage ELSE refImg IN
      IF jr.hdr # "valid" \/ (FixFirstRb /\ dbf = <<>>)
      THEN \* invalid header (or, as repaired, still-empty database file): only invalidates the journal
           /\ jr' = JournalGone /\ dirty' = {}
@@ -563,7 +592,7 @@ Litter ==
   /\ UNCHANGED <<dvars, lvars, pc, plan, todo, refImg, salts, mx, ckpted, mvars>>
   /\ H("Litter", [x |-> 0])
 
-Next == \/ Crash \/ Retain \/ Litter \/ DropDB \/ BeginJ \/ JCreate \/ JSync \/ JPage \/ JRbTrunc \/ JRbPage \/ JFinal \/ JTrunc
+Next == \/ Crash \/ Retain \/ Litter \/ DropDB \/ BeginJ \/ JRmWal \/ JCreate \/ JSync \/ JPage \/ JRbTrunc \/ JRbPage \/ JFinal \/ JTrunc
         \/ BeginW \/ WHdr \/ WFrame \/ WEnd \/ Ckpt \/ LCkpt
 Spec == Init /\ [][Next]_vars
 
